@@ -119,6 +119,14 @@ def build(disp, stack, table_name, events, mbs=None, shapes='list'):
         async def eh(rq, cx, error):
             events.append(('eh', hid, rq.method, rq.id, error.code, cx is CTX))
             return JsonRpcError(new_code(hid), 'replaced') if kind == 'replace' else error
+        if shapes == 'future-handlers' and hid % 2 == 0:
+            # a handler that is a plain function returning an awaitable that is NOT a coroutine object (a Future / Task, e.g.
+            # asyncio.shield(..) or loop.run_in_executor(..))
+            import asyncio
+
+            def eh_future(rq, cx, error):
+                return asyncio.ensure_future(eh(rq, cx, error))
+            return eh_future
         return eh
 
     shared = {}
@@ -261,6 +269,8 @@ def gen_cases(ctx):
                             yield dict(stack=stack, table=table, request=rq, disp=disp, shapes='iterators')
                         if n and n <= 3 and disp == 'async' and rq in ('batch', 'batch-n', 'batch-internal') and table in ('none', 'generic+percode', 'replace-generic'):
                             yield dict(stack=stack, table=table, request=rq, disp=disp, shapes='suspend')
+                        if n <= 1 and disp.startswith('async') and table != 'none' and rq in ('unknown', 'perr', 'batch', 'boom-n', 'internal'):
+                            yield dict(stack=stack, table=table, request=rq, disp=disp, shapes='future-handlers')
                         if stack.count('pass') >= 2 and n <= 3 and rq in ('ok', 'batch', 'perr-n') and table in ('none', 'same-generic+percode'):
                             yield dict(stack=stack, table=table, request=rq, disp=disp, shapes='shared-mw')
 
@@ -310,7 +320,7 @@ def run_once(case, rec, d, log, table, events, text, stack, tname, rq, disp, mbs
     p = ref.match_answer(answer, want_answer)
     rejected = want_answer is ref.REJECT or rq == 'unparsable'
     kind = 'rejected document' if rejected else ('batch' if isinstance(REQUESTS.get(rq), list) else ('notification' if rq.endswith('-n') else 'call'))
-    if case.get('shapes') == 'suspend':
+    if case.get('shapes') in ('suspend', 'future-handlers'):
         # the elements interleave: compare the event sequence of each element (grouped by the element's id and the method the
         # outermost middleware saw) instead of one global sequence
         def per_element(evs):
@@ -331,7 +341,7 @@ def run_once(case, rec, d, log, table, events, text, stack, tname, rq, disp, mbs
         rec.violation('C12:%s differ from the declared order (%s)%s' % (what, kind, '' if rep == 1 else ' when the request is served a second time'), case, expected=want_events, observed=list(events))
     elif p:
         rec.violation('C12:response differs from what the chain returned (%s):%s' % (kind, norm(p)), case, expected=want_answer, observed=answer, detail=p)
-    elif not (ref.calls_eq(sorted(log, key=repr), sorted(want_calls, key=repr)) if case.get('shapes') == 'suspend' else ref.calls_eq(log, want_calls)):
+    elif not (ref.calls_eq(sorted(log, key=repr), sorted(want_calls, key=repr)) if case.get('shapes') in ('suspend', 'future-handlers') else ref.calls_eq(log, want_calls)):
         rec.violation('C12:method executions differ (%s)' % kind, case, expected=want_calls, observed=log)
     rec.states += 1
     rec.traces += 1
